@@ -145,11 +145,16 @@ fn run(kvariant: &[Op], init_flags: u8, prefix: &[usize], http_every_step: bool,
     // bit 7 of the configuration's flags: the secure channel is already latched (the key keeper reported a state
     // other than disabled/unknown) while this instance's subsystems are still reporting
     let channel_latched = init_flags & 0x80 != 0;
+    // bit 6: an earlier run died between writing status.tag.tmp and renaming it: a long stale temporary file is there
+    let stale_tmp = init_flags & 0x40 != 0;
     let init_flags = init_flags & 7;
     let rt = tokio::runtime::Builder::new_current_thread().enable_all().build().unwrap();
     let _ = std::fs::remove_file(format!("{keys_dir}/status.tag"));
     let _ = std::fs::remove_file(format!("{keys_dir}/status.tag.tmp"));
     let _ = std::fs::remove_file(format!("{keys_dir}/provisioned.tag"));
+    if stale_tmp {
+        let _ = std::fs::write(format!("{keys_dir}/status.tag.tmp"), format!("STALE-TMP-MARKER keyLatchStatus - a message left by a run that died before its rename {}\r\n", "x".repeat(300)));
+    }
     let ino = Inotify::new(keys_dir);
     let out = rt.block_on(async {
         let shared = SharedState::start_all();
@@ -303,6 +308,16 @@ fn run(kvariant: &[Op], init_flags: u8, prefix: &[usize], http_every_step: bool,
                 if let Some(first) = justified_since_boundary.first() {
                     queries.push(("first-boundary", Some(first.0)));
                 }
+                // ticks right at the finished stamp: the stamp itself and one nanosecond before it are covered by it, one
+                // nanosecond and 999 nanoseconds after it are not (same microsecond, same millisecond)
+                let stamp_now = prov.get_provision_finished().await.unwrap_or(0);
+                if stamp_now > 0 {
+                    queries.push(("at-the-stamp", Some(stamp_now)));
+                    queries.push(("stamp-minus-1ns", Some(stamp_now - 1)));
+                    queries.push(("stamp-plus-1ns", Some(stamp_now + 1)));
+                    queries.push(("stamp-plus-999ns", Some(stamp_now + 999)));
+                    queries.push(("stamp-plus-999999ns", Some(stamp_now + 999_999)));
+                }
                 for (label, q) in queries {
                     match http_query(q).await {
                         Err(e) => problems.push(("provision-query-failed".into(), format!("{what}: query {label}: {e}"))),
@@ -312,6 +327,8 @@ fn run(kvariant: &[Op], init_flags: u8, prefix: &[usize], http_every_step: bool,
                                     "far-future" => false,
                                     "absent" | "zero" | "negative" => stamp_exists,
                                     "boundary-before-this-step" => justified_since_boundary.last().map_or(false, |b| b.1),
+                                    "at-the-stamp" | "stamp-minus-1ns" => stamp_exists,
+                                    "stamp-plus-1ns" | "stamp-plus-999ns" | "stamp-plus-999999ns" => false,
                                     _ => justified_since_boundary.first().map_or(false, |b| b.1) || (stamp_exists && false),
                                 };
                             if finished && !allowed {
@@ -328,6 +345,9 @@ fn run(kvariant: &[Op], init_flags: u8, prefix: &[usize], http_every_step: bool,
             if let Ok(content) = std::fs::read_to_string(format!("{keys_dir}/status.tag")) {
                 if !content.is_empty() && !content.ends_with("\r\n") {
                     problems.push(("status-tag-half-written".into(), format!("{what}: status.tag content {:?}", content)));
+                }
+                if content.contains("STALE-TMP-MARKER") || content.contains("xxxxxxxx") {
+                    problems.push(("status-tag-carries-stale-bytes".into(), format!("{what}: status.tag contains bytes of a temporary file left by an earlier run: {:?}", content.chars().take(120).collect::<String>())));
                 }
             }
         }
@@ -372,6 +392,9 @@ fn main() {
     for k in [0usize, 1, 3, 5] {
         configs.push((k, 0x80)); // nothing reported yet, secure channel already latched
     }
+    for k in [0usize, 2, 4] {
+        configs.push((k, 0x40)); // a stale status.tag.tmp of an earlier run is in the way
+    }
     if let Ok(path) = std::env::var("VERIF_REPLAY") {
         let doc: Value = serde_json::from_str(&std::fs::read_to_string(path).unwrap()).unwrap();
         let c = &doc["case"];
@@ -397,7 +420,7 @@ fn main() {
         res.cov("exhaustive", !capped);
         res.cov("preemption_bound", bound as u64);
         res.cov("workers", n as u64);
-        res.cov("rule", format!("threads R=[redirector_ready], L=[listener_started], K in 6 op sequences over key_latched / key_latch_ready_state_reset / provision_timeup, from the empty readiness set and (K variants [reset, latched] and [latched, reset]) from {} non-initial readiness sets, and 4 K variants with the secure channel already latched (initial_flags bit 7); every schedule with <= {bound} preemptions, one actor message per step; after every step: provision flags, finished tick and error text via the public getters; for schedules with <= 1 preemption also six real /provision HTTP queries (tick absent, 0, negative, far future, boundary before the step, first boundary); inotify on the tag directory", if thorough { 7 } else { 3 }));
+        res.cov("rule", format!("threads R=[redirector_ready], L=[listener_started], K in 6 op sequences over key_latched / key_latch_ready_state_reset / provision_timeup, from the empty readiness set and (K variants [reset, latched] and [latched, reset]) from {} non-initial readiness sets, and 4 K variants with the secure channel already latched (initial_flags bit 7), 3 with a stale status.tag.tmp of an earlier run in the directory (bit 6); every schedule with <= {bound} preemptions, one actor message per step; after every step: provision flags, finished tick and error text via the public getters; for schedules with <= 1 preemption also six real /provision HTTP queries (tick absent, 0, negative, far future, boundary before the step, first boundary, and the stamp itself -1 / +1 / +999 / +999999 ns); inotify on the tag directory", if thorough { 7 } else { 3 }));
         std::process::exit(res.finish());
     }
     let (wi, wn) = me.unwrap();
